@@ -181,3 +181,61 @@ impl SendBuf {
         }
     }
 }
+
+// ------------------------------------------------------------------------------------------------
+// CONTRACT STUB for `SendBuf::pick_up` (used by the quick-tier pass-through harnesses; the
+// composite harnesses *_real_* run the real function instead).
+//
+// It returns ANY result the contract of the real function allows — the contract that C09's
+// c09_buf_pick_up_* harnesses (sndbuf_buf.rs) prove for the real function from every JS state:
+//   Ok((range, fresh, chunks)): offset <= range.start < range.end <= min(written, max_data);
+//       length <= predicate(range.start) (asked once); fresh => length <= flow_limit;
+//       the chunks hold exactly the bytes of the range; `fresh` is true iff those bytes were never
+//       sent before (colour Pending), false iff they were declared lost;
+//   Err(signals): nothing offered.
+// and records what it returned, so that the callers' outputs can be compared with it. What the
+// Sender / Outgoing / DataStreams layers add on top (flag pass-through, FIN, the charge) is then
+// decided for EVERY buffer state, not only for small colour maps.
+static mut C11S_STUB_KIND: u8 = 0; // 0 not called, 1 Ok, 2 Err
+static mut C11S_STUB_START: u64 = 0;
+static mut C11S_STUB_END: u64 = 0;
+static mut C11S_STUB_FRESH: bool = false;
+static mut C11S_STUB_CALLS: u32 = 0;
+
+pub(crate) fn c11s_stub_pick_up<P>(b: &mut SendBuf, predicate: P, flow_limit: usize) -> Result<(Range<u64>, bool, Vec<Bytes>), Signals>
+where
+    P: Fn(u64) -> Option<usize>,
+{
+    unsafe { C11S_STUB_CALLS += 1 };
+    if kani::any() {
+        let start: u64 = kani::any();
+        let end: u64 = kani::any();
+        kani::assume(b.offset <= start && start < end && end <= b.state.size() && end <= C11S_W);
+        let fresh: bool = kani::any();
+        let allowed = predicate(start);
+        kani::assume(allowed.is_some());
+        kani::assume(end - start <= allowed.unwrap() as u64);
+        if fresh {
+            kani::assume(end - start <= flow_limit as u64);
+        }
+        unsafe {
+            C11S_STUB_KIND = 1;
+            C11S_STUB_START = start;
+            C11S_STUB_END = end;
+            C11S_STUB_FRESH = fresh;
+        }
+        let mut chunks = Vec::with_capacity(1);
+        chunks.push(Bytes::from_static(&C11S_SEQ).slice(start as usize..end as usize));
+        Ok((start..end, fresh, chunks))
+    } else {
+        unsafe { C11S_STUB_KIND = 2 };
+        Err(Signals::from_bits_truncate(kani::any()))
+    }
+}
+
+impl SendBuf {
+    /// What the contract stub returned last: (kind 0 not called / 1 Ok / 2 Err, start, end, fresh, number of calls).
+    pub(crate) fn c11s_stub_record() -> (u8, u64, u64, bool, u32) {
+        unsafe { (C11S_STUB_KIND, C11S_STUB_START, C11S_STUB_END, C11S_STUB_FRESH, C11S_STUB_CALLS) }
+    }
+}
